@@ -51,6 +51,10 @@ func VerifC14Immutable() {
 	vrtSetPreemptions(vrtParam("PREEMPT", 0))
 	p := c14Project()
 	before := vrtClone(p).(*Project)
+	if vrtParam("MAPORDER", 0) == 1 {
+		// the copies are made entry by entry: the order in which the library walks its maps must not matter
+		vrtMapOrder([]int{3, 4}[vrtChoice("maporder", 2)])
+	}
 	nops := 1 + vrtChoice("nops", vrtParam("OPS", 2))
 	cur := p
 	var results []*Project
